@@ -19,11 +19,22 @@ for sid in ids:
         continue
     try:
         det = {}
-        for p in (props if allc else [own]):
-            o = subprocess.run([os.path.join(ROOT, "check"), p], cwd=ROOT, capture_output=True, text=True)
+
+        def run_one(p):
+            # evidence of these runs describes a changed tree: keep it out of /verif/evidence
+            env = dict(os.environ, CKC_EVIDENCE_DIR="/tmp/ckc-seed-evidence")
+            o = subprocess.run([os.path.join(ROOT, "check"), p], cwd=ROOT, capture_output=True, text=True, env=env)
             rules = re.findall(r"rule=(\S+) instance=(.*)", o.stdout)
-            unc = any("UNCERTIFIED" in x for x in o.stdout.splitlines() if x.strip().startswith("UNCERTIFIED") or "instance=UNCERTIFIED" in x)
-            det[p] = {"rc": o.returncode, "rules": sorted({a for a, b in rules})[:6], "via_uncertified_only": bool(rules) and all(b.strip() == "UNCERTIFIED" for a, b in rules)}
+            unc_only = bool(rules) and all(("UNCERTIFIED" in b) or ("UNCERTIFIED" in o.stdout.split("rule=%s instance=%s" % (a, b), 1)[1].split("\n", 2)[1]) for a, b in rules)
+            return p, {"rc": o.returncode, "rules": sorted({a for a, b in rules})[:6], "via_uncertified_only": unc_only}
+        # the own-property check first (it also fills the fact cache for this tree), the others in parallel
+        p_, d_ = run_one(own)
+        det[p_] = d_
+        if allc:
+            from concurrent.futures import ThreadPoolExecutor
+            with ThreadPoolExecutor(max_workers=10) as pool:
+                for p_, d_ in pool.map(run_one, [p for p in props if p != own]):
+                    det[p_] = d_
     finally:
         subprocess.run(["git", "-C", "/repo", "checkout", "--", "."])
     meta["detection"] = det
